@@ -1,13 +1,54 @@
-(* C04 — pinned statements; proofs live in Proofs/. *)
-From NW Require Import Base.Bytes Model.SchemaTypes Gen.Schema Model.Codec Model.Ids Model.Server.
+(* C04 — Only the owner administers a channel, only members observe it; one owner.
+   Pinned statements (types pasted verbatim from the proved lemmas by tools/pin.py); proofs in Proofs/Server*.v. *)
+From NW Require Import Base.Bytes Model.SchemaTypes Gen.Schema Model.Codec Model.MsgInfo Model.Ids Model.Server.
+From NW Require Import Proofs.ServerLib Proofs.ServerRoute Proofs.ServerHandlers Proofs.ServerSteps Proofs.ServerPhases.
+From NW Require Import Proofs.ServerInvBase Proofs.ServerInv Proofs.ServerUniq Proofs.ServerInvCor.
 
-(* the model computes: a client connects, identifies and creates a channel *)
-Example C04_model_smoke :
-  let cfg := {| domain := bs "localhost"; has_mod := false; op_auth := false; op_fbp := false; op_fev := false; op_spp := false;
-                proto := []; max_clients := 10; max_subs := 10; max_payload_cfg := 1024; max_inflight := 10; max_message := 1024;
-                keepalive := 60000; min_keepalive := 1000; max_conns := 16; pool_budget := 4194304 |} in
-  let s := run_state cfg init [Open 1; Bytes 1 (bs "CONNECT version=1 heartbeat_interval=0" ++ [NL]) [] [];
-                               Bytes 1 (bs "IDENTIFY username=alice" ++ [NL]) [] [];
-                               Bytes 1 (bs "JOIN id=1 channel=!c1@localhost" ++ [NL]) [] []] in
-  map fst (chans s) = [bs "c1"] /\ map fst (router s) = [bs "alice"].
-Proof. vm_compute. split; reflexivity. Qed.
+Theorem C04_owner_and_member_gates :
+  forall (cfg : scfg) (h : N) (m : msg) (p : option (list N)) (c : ctx) 
+      (cn : conn) (me : nid) (hd : str) (ch : chan),
+    nlookup h (conns (st c)) = Some cn ->
+    c_phase cn = Authenticated ->
+    c_nid cn = Some me ->
+    existsb (N.eqb h) (closing c) = false ->
+    max_inflight cfg <> 0 ->
+    chan_parse (get_str m "channel") = Some (hd, domain cfg) ->
+    alookup hd (chans (st c)) = Some ch ->
+    let c' := on_frame cfg h m p c in
+    let refusal :=
+      fun reason : string =>
+      st c' = st c /\
+      closing c' = closing c /\
+      new_outs c c' = [OSend h (err_msg (Some (get_num m "id")) reason) None] in
+    (is_owner ch me = false ->
+     (is_kind m "SET_CHAN_ACL" = true ->
+      parse_nids (get_vec m "nids") <> None -> refusal "FORBIDDEN"%string) /\
+     (is_kind m "GET_CHAN_ACL" = true -> refusal "FORBIDDEN"%string) /\
+     (is_kind m "SET_CHAN_CONFIG" = true ->
+      get_num m "max_clients" <= max_clients cfg ->
+      get_num m "max_payload_size" <= max_payload_cfg cfg -> refusal "FORBIDDEN"%string) /\
+     (is_kind m "JOIN" = true ->
+      (exists (s : str) (n : nid), get_ostr m "on_behalf" = Some s /\ nid_parse s = Some n) ->
+      refusal "FORBIDDEN"%string) /\
+     (is_kind m "LEAVE" = true ->
+      (exists (s : str) (n : nid), get_ostr m "on_behalf" = Some s /\ nid_parse s = Some n) ->
+      refusal "FORBIDDEN"%string)) /\
+    (nmem me (ch_members ch) = false ->
+     (is_kind m "MEMBERS" = true -> refusal "USER_NOT_IN_CHANNEL"%string) /\
+     (is_kind m "GET_CHAN_CONFIG" = true -> refusal "FORBIDDEN"%string) /\
+     (is_kind m "BROADCAST" = true -> has_mod cfg = false -> refusal "FORBIDDEN"%string)).
+Proof. exact C04_gates. Qed.
+
+(* A non-empty channel has exactly one owner, who is a member — in every reachable state
+   (every history, every script of modulator outcomes, every new-owner choice). *)
+Theorem C04_single_owner_reachable : forall cfg ops hd ch,
+  ops_ok cfg init ops -> alookup hd (chans (run_state cfg init ops)) = Some ch ->
+  ch_members ch <> [] /\ exists o, ch_owner ch = Some o /\ nmem o (ch_members ch) = true.
+Proof.
+  intros cfg ops hd ch Hok Hch.
+  pose proof (Inv_spec _ _ (inv_reachable cfg ops Hok)) as I.
+  split; [exact (sp_nonempty _ _ I hd ch Hch) | exact (sp_owner _ _ I hd ch Hch)].
+Qed.
+
+Print Assumptions C04_owner_and_member_gates.
+Print Assumptions C04_single_owner_reachable.
